@@ -24,7 +24,9 @@ def h_reconstruction(eng):
     eng.assume(w.cached_version == w.current_version)
     eng.assume(z3.And(w.opt_cached == w.opt_now, w.codegen_cached == w.codegen, z3.Not(w.cache_absent)))
     for path, mt in w.mtimes.items():
-        eng.assume(mt <= w.cache_mtime)
+        # (time stamps are seconds since the epoch: non-negative.  That an acceptable cache IS accepted is more than C19 states --
+        # a refused cache is recompiled -- so this harness does not insist on it for time stamps no file system hands out)
+        eng.assume(z3.And(mt <= w.cache_mtime, mt >= 0))
     out, m, exc = A.run_load(eng, w)
     if out == "raises":
         # only the OS check of code-generated libraries may still refuse
@@ -211,14 +213,16 @@ def h_save_load_roundtrip(eng):
     model, objs = A.make_model(eng, shapes, mx_attr=(key, idx, attr, kind))
     opts = w.current_options
     codegen = eng.branch(ops.to_z3(w.codegen))
-    rec = A.run_save(eng, w, model, opts)
+    # with code generation the REAL _codegen_model runs on a recording tool chain; library files of an earlier save (whatever its
+    # options were) may already lie in the folder, older or newer than the sources
+    rec = A.run_save(eng, w, model, opts, real_codegen=codegen)
     if rec["raised"] is not None or len(rec["dumps"]) != 1:
         eng.prove("roundtrip2.save_completes", False, raised=rec["raised"])
         return
     w.db, w.pickle_outcome = rec["dumps"][0][0], None
     eng.assume(z3.Not(w.cache_absent))
     for path, mt in w.mtimes.items():
-        eng.assume(mt <= w.cache_mtime)
+        eng.assume(z3.And(mt <= w.cache_mtime, mt >= 0))
     out, m, exc = A.run_load(eng, w)
     if out == "raises":
         eng.prove("roundtrip2.what_save_wrote_loads", False, exc=m)
@@ -265,10 +269,18 @@ def h_save_load_roundtrip(eng):
     for o in ("dae_residual", "initial_residual", "variable_metadata", "delay_arguments"):
         got = m.fields.get("_%s_function" % o)
         if codegen:
-            # code generation: function o is loaded from the shared library that was generated FROM function o
-            gen = [n for n in rec["codegen"] if str(n).endswith("_" + o)]
-            ok = isinstance(got, A.FunctionStub) and got.label == "external:" + o and len(gen) == 1 and getattr(got, "library", None) == "lib:" + str(gen[0])
-            eng.prove("roundtrip2.code_generated_function_is_loaded_from_its_own_library", z3.BoolVal(bool(ok)), function=o, library=getattr(got, "library", None))
+            # code generation: function o is loaded from a shared library that holds the code generated, in THIS save, from THIS model's function o
+            lib = getattr(got, "library", None)
+            lib = lib.label if isinstance(lib, A.PathStr) else lib
+            held = rec["content"].get(lib)
+            fresh = held is not None and held[0] == "library" and len(held[1]) >= 1 and held[1][0] is model.fields[o + "_function"]
+            ok = isinstance(got, A.FunctionStub) and got.label == "external:" + o
+            eng.prove("roundtrip2.code_generated_function_is_loaded_from_its_own_library", z3.BoolVal(bool(ok and fresh)), function=o, library=lib,
+                      library_holds=repr(held)[:120] if held is not None else "a file this save did not write")
+            if fresh:
+                ders = [getattr(d, "label", "") for d in held[1][1:]]
+                base = model.fields[o + "_function"].label
+                eng.prove("roundtrip2.library_also_holds_the_derivative_functions", z3.BoolVal(ders == [base + ".forward(1)", base + ".reverse(1)", base + ".reverse(1).forward(1)"]), got=ders)
         else:
             eng.prove("roundtrip2.functions_are_the_models_own", z3.BoolVal(got is model.fields[o + "_function"]), function=o)
 
@@ -320,6 +332,7 @@ TRUSTED = ["pyvc VC generator", "z3 5.1.0",
            "pickle round trip (loads(dumps(x)) == x), CasADi Function serialisation / external libraries, numeric agreement of the restored functions",
            "layout of variable_metadata_function's output: one matrix per category, one column per CASADI_ATTRIBUTES entry, numel(v) consecutive rows per variable in list order (C13)"]
 ASSUMPTIONS = [
+    "file modification times are non-negative (seconds since the epoch) where a harness insists that an up-to-date cache is accepted",
     "0-2 variables per category (enumerated), shapes symbolic; one symbolic dependency code at each enumerated (category, variable, attribute) position, all other positions NOT_MX",
     "of the delay-argument reconstruction only the agreement of save_model's and load_model's symbol enumeration (the index space of the stored dependencies) is under contract; the rest is exercised by the bounded replay only",
     "save_model's side: the composed harness runs the REAL save_model and then the REAL load_model on what it dumped (non-codegen; 3 variable-count patterns, one MX attribute at every position with kind dependent / independent / constant); delays in the stored model only in the bounded replay",
